@@ -339,27 +339,43 @@ def rawCfgOf (r : Raw) : Cfg :=
   { hostname := aTest, enabled := true, minV := r.minV, maxV := r.maxV, ciphers := r.ciphers, curves := r.curves,
     preferServer := false, clientAuth := r.clientAuth, clientCerts := [], alpn := r.alpn, disableSNIMatching := r.disableSNI }
 
-def listenerCase : List String → Option (Bool × List Casket.TLSSetup.Line)
-  | [a, b] => (parseBlock b).map (fun bl => (a == "1", bl))
+structure ListenerCase where
+  aesni : Bool
+  blocks : List (List Casket.TLSSetup.Line)     -- one per site; all sites share the host name a.test
+
+def listenerCase : List String → Option ListenerCase
+  | [a, b, b2] => do
+    let bl ← parseBlock b
+    if b2 == "-" then pure { aesni := a == "1", blocks := [bl] }
+    else pure { aesni := a == "1", blocks := [bl, ← parseBlock b2] }
   | _ => none
+
+/-- the sites' settings as their `tls` blocks state them, or none if some block is rejected / names a CA file
+(the CA files of the generator do not exist: NewServer fails) -/
+def listenerCfgs (c : ListenerCase) : Option (List Cfg) :=
+  c.blocks.mapM fun bl =>
+    match Casket.TLSSetup.applyLines {} bl with
+    | .error _ => none
+    | .ok r => if !r.clientCerts.isEmpty then none else some (rawCfgOf r)
 
 def listenerModel (f : List String) : String :=
   match listenerCase f with
   | none => "bad-case"
-  | some (aesni, block) =>
-    match Casket.TLSSetup.applyLines {} block with
-    | .error _ => "err"
-    | .ok r =>
-      if !r.clientCerts.isEmpty then "err"   -- CA files of the generator do not exist: NewServer fails
-      else showHS (handshake aesni [rawCfgOf r] aTest tls10 tls13 (some (Casket.TLSSetup.str "pipe")))
+  | some c =>
+    match listenerCfgs c with
+    | none => "err"
+    | some cfgs =>
+      match pipeline c.aesni cfgs aTest (some (Casket.TLSSetup.str "pipe")) with
+      | .error _ => "err"
+      | _ => showHS (handshake c.aesni cfgs aTest tls10 tls13 (some (Casket.TLSSetup.str "pipe")))
 
 def listenerJudge (f : List String) (out : String) : String :=
   if out == "err" then "ok"
   else match listenerCase f, parseHS out with
-    | some (aesni, block), some o =>
-      match Casket.TLSSetup.applyLines {} block with
-      | .error _ => "bad:handshake-on-rejected-block:a listener came up although setupTLS must reject the block"
-      | .ok r => Casket.TLSSpec.hsVerdict aesni [rawCfgOf r] aTest (some (Casket.TLSSetup.str "pipe")) o
+    | some c, some o =>
+      match listenerCfgs c with
+      | none => "bad:handshake-on-rejected-block:a listener came up although a tls block must be rejected"
+      | some cfgs => Casket.TLSSpec.hsVerdict c.aesni cfgs aTest (some (Casket.TLSSetup.str "pipe")) o
     | _, _ => "bad:unparsable:" ++ out
 
 def streams : List Driver.Stream := [
